@@ -139,6 +139,9 @@ Section Env.
     end.
 
   Variable exec : A -> W -> Z -> W * list cmd.
+  (** [wfail w] : the action raised a Python exception (recorded in the world);
+      the exception propagates out of step() and run(). *)
+  Variable wfail : W -> bool.
 
   Definition state : Type := W * env.
 
@@ -155,7 +158,7 @@ Section Env.
            | Some a =>
              let (w', cs) := exec a w (e_time e) in
              match apply_cmds en1 cs with
-             | Ok en2 => Some (Ok (w', en2))
+             | Ok en2 => if wfail w' then Some (Err (w', en2)) else Some (Ok (w', en2))
              | Err en2 => Some (Err (w', en2))
              end
            end
